@@ -1,13 +1,8 @@
-(* RawJsonProofs: the framing logic of RawJSON (model: RawJson.v) on top of the scanner of
-   JsonScan.v.  PARTIAL: the two facts about the scanner itself that the full theorems need,
-     (a) prefix extension: for every JSON object, array or string r (no outer white space) and
-         every continuation,  scan (r ++ rest) = Done rest,
-     (b) fuel: scan never returns NoFuel (fuel S (2 * length s) suffices),
-   are NOT proved (mutual induction over scan_value / scan_elems / scan_members).  (a) appears
-   below as the hypothesis [self_delimiting] on each record, with closed instances as
-   non-vacuity examples; both are exercised by the correspondence check on every run. *)
+(* RawJsonProofs: C11 and C12 for the RawJSON framing (model: RawJson.v over the scanner of
+   JsonScan.v).  The scanner facts (fuel sufficiency, prefix extension) are proved for all inputs
+   in JsonScanProofs.v. *)
 From Coq Require Import List NArith Bool Lia Arith.
-From JV Require Import Bytes FrameBase FrameBaseProofs JsonScan RawJson.
+From JV Require Import Bytes FrameBase FrameBaseProofs JsonScan JsonScanProofs RawJson.
 Import ListNotations.
 Local Open Scope N_scope.
 
@@ -19,22 +14,28 @@ Proof. induction 1 as [|c j Hc _ IH]; cbn; auto. now rewrite Hc. Qed.
 Lemma skip_ws_all j : all_ws j -> skip_ws j = [].
 Proof. induction 1 as [|c j Hc _ IH]; cbn; auto. now rewrite Hc. Qed.
 
-(* the scanner finds the end of r whatever follows *)
-Definition self_delimiting (r : bytes) : Prop :=
-  exists c t, r = c :: t /\ is_ws c = false /\ forall rest, scan (r ++ rest) = Done rest.
-
 (* records the round trip is claimed for: the empty record (sent as null LF, received empty)
-   and self-delimiting JSON texts other than null *)
-Definition legal (r : bytes) : Prop := r = [] \/ (self_delimiting r /\ is_null r = false).
+   and every JSON object, array or string without outer white space (json_record, a boolean
+   checker: the text starts with an opening brace, bracket or quote and Go's scanner grammar
+   accepts exactly all of it).  Bare numbers and literals are excluded: two of them sent
+   back to back are one token (12) or need a separator the framing does not add. *)
+Definition legal (r : bytes) : Prop := r = [] \/ json_record r = true.
 
 Definition enc (r : bytes) : bytes := if is_nil r || is_null r then s_null ++ [10] else r.
 
 Lemma send_enc r : send r = Sent (enc r).
 Proof. unfold send, enc. destruct (is_nil r || is_null r); reflexivity. Qed.
 
+Lemma json_record_not_null r : json_record r = true -> is_nil r = false /\ is_null r = false.
+Proof.
+  intros H. destruct (json_record_head r H) as [c [t [-> [_ Hc]]]]. split; [reflexivity|].
+  unfold is_null, s_null. cbn [beq]. destruct Hc as [-> | [-> | ->]]; reflexivity.
+Qed.
+
 Lemma enc_legal r : legal r -> enc r = match r with [] => s_null ++ [10] | _ => r end.
 Proof.
-  intros [->|[[c [t [-> _]]] Hn]]; [reflexivity|]. unfold enc. rewrite Hn. reflexivity.
+  intros [->|H]; [reflexivity|]. destruct (json_record_not_null r H) as [H1 H2].
+  unfold enc. rewrite H1, H2. destruct r; [discriminate|reflexivity].
 Qed.
 
 Lemma scan_null rest : scan (s_null ++ 10 :: rest) = Done (10 :: rest).
@@ -44,23 +45,27 @@ Lemma recv_enc j r rest :
   all_ws j -> legal r ->
   exists j', recv None (j ++ enc r ++ rest) = Ok r None (j' ++ rest) /\ all_ws j'.
 Proof.
-  intros Hj Hl. rewrite (enc_legal r Hl). destruct Hl as [->|[[c [t [-> [Hc Hs]]]] Hn]].
+  intros Hj Hl. rewrite (enc_legal r Hl). destruct Hl as [->|H].
   - exists [10]. split; [|repeat constructor].
     unfold recv. rewrite skip_ws_app by assumption.
     change (skip_ws ((s_null ++ [10]) ++ rest)) with (s_null ++ 10 :: rest).
     cbn [s_null app]. change (110 :: 117 :: 108 :: 108 :: 10 :: rest) with (s_null ++ 10 :: rest).
     rewrite scan_null. rewrite span_before_app. reflexivity.
-  - exists []. split; [|constructor].
-    unfold recv. rewrite skip_ws_app by assumption. cbn [app skip_ws]. rewrite Hc.
-    change (c :: t ++ rest) with ((c :: t) ++ rest).
-    rewrite Hs. rewrite span_before_app. rewrite Hn. reflexivity.
+  - destruct (json_record_not_null r H) as [_ Hn].
+    destruct (json_record_head r H) as [c [t [E [Hc _]]]]. subst r.
+    exists []. split; [|constructor].
+    assert (Hs : scan (c :: t ++ rest) = Done rest) by (apply (scan_self_delimiting (c :: t) rest H)).
+    unfold recv. rewrite skip_ws_app by assumption. cbn [app skip_ws]. rewrite Hc, Hs.
+    change (c :: t ++ rest) with ((c :: t) ++ rest). rewrite span_before_app, Hn. reflexivity.
 Qed.
 
 Lemma recv_end j : all_ws j ->
   recv None j = Err EEOF (Some EEOF) j /\ recv (Some EEOF) j = Err EEOF (Some EEOF) j.
 Proof. intros Hj. unfold recv. rewrite skip_ws_all by assumption. auto. Qed.
 
-Theorem rawjson_round_trip_partial : forall rs,
+(* ---- C11 ---------------------------------------------------------------------------- *)
+
+Theorem rawjson_round_trip : forall rs,
   Forall legal rs ->
   send_all send rs = Some (concat (map enc rs)) /\
   recv_all (concat (map enc rs)) = map IRec rs ++ [IErr EEOF].
@@ -69,19 +74,20 @@ Proof.
   - apply send_all_sent. apply Forall_forall. intros r _. apply send_enc.
   - unfold recv_all.
     apply (round_trip recv enc (fun st => st = None) legal all_ws); auto; [| | |constructor].
-    + intros r Hl. rewrite (enc_legal r Hl). destruct Hl as [->|[[c [t [-> _]]] _]]; discriminate.
+    + intros r Hl. rewrite (enc_legal r Hl). destruct Hl as [->|H]; [discriminate|].
+      destruct (json_record_head r H) as [c [t [-> _]]]. discriminate.
     + intros st j r rest -> Hj Hl. destruct (recv_enc j r rest Hj Hl) as [j' [E Hj']].
       exists None, j'. auto.
     + intros st j -> Hj. destruct (recv_end j Hj) as [E1 E2]. exists (Some EEOF), j, (Some EEOF), j. auto.
 Qed.
 
-(* closed instances of the hypothesis: an object, an array, a string, nested values *)
-Example self_delimiting_object : self_delimiting [123; 125].                       (* {} *)
-Proof. exists 123, [125]. repeat split. Qed.
-Example self_delimiting_string : self_delimiting [34; 97; 92; 34; 34].             (* the string a-backslash-quote *)
-Proof. exists 34, [97; 92; 34; 34]. repeat split. Qed.
-Example self_delimiting_nested : self_delimiting [91; 123; 34; 97; 34; 58; 91; 49; 44; 50; 93; 125; 93]. (* array of an object with an array member *)
-Proof. eexists _, _. repeat split. Qed.
+(* json_record: an object, a string with escapes, a nested array with numbers and white space *)
+Example json_record_examples :
+  json_record [123; 125] = true /\ json_record [34; 97; 92; 34; 34] = true /\
+  json_record [91; 123; 34; 97; 34; 58; 32; 91; 49; 44; 50; 46; 53; 101; 51; 93; 125; 44; 32; 110; 117; 108; 108; 93] = true /\
+  json_record [49; 50] = false /\ json_record [32; 123; 125] = false /\ json_record [123; 125; 32] = false /\
+  json_record [123] = false.
+Proof. vm_compute. repeat split. Qed.
 
 Example rawjson_round_trip_nonvacuous :
   Forall legal [[123; 125]; []; [34; 97; 92; 34; 34]] /\
@@ -90,23 +96,48 @@ Example rawjson_round_trip_nonvacuous :
 Proof.
   split; [|vm_compute; reflexivity].
   constructor; [|constructor; [|constructor; [|constructor]]].
-  - right. split; [apply self_delimiting_object | reflexivity].
+  - right. reflexivity.
   - now left.
-  - right. split; [apply self_delimiting_string | reflexivity].
+  - right. reflexivity.
 Qed.
 
-(* numbers are not self-delimiting: 1 followed by 2 is the single value 12 (so the round trip
-   is not claimed for them, and the framing is documented as unsuitable for bare scalars) *)
+(* numbers are not self-delimiting: 1 followed by 2 is the single value 12 *)
 Example number_not_self_delimiting : scan ([49] ++ [50]) = Done [].
 Proof. reflexivity. Qed.
 
-(* C12, partial: the model of Recv has no panic outcome; what is missing is (b) above *)
-Theorem rawjson_never_panics_partial : forall st s,
-  match recv st s with Crash _ => False | _ => True end.
+(* ---- C12 ---------------------------------------------------------------------------- *)
+
+(* one Recv on any stream in any decoder state: no panic, no fuel exhaustion *)
+Theorem rawjson_total_no_crash : forall st s,
+  match recv st s with Crash _ | OutOfFuel => False | _ => True end.
 Proof.
   intros st s. unfold recv. destruct st; [exact I|].
-  destruct (skip_ws s); [exact I|]. destruct (scan _); exact I.
+  destruct (skip_ws s) as [|c v] eqn:E; [exact I|].
+  pose proof (scan_fuel_ok (c :: v)) as P. destruct (scan (c :: v)); try exact I. exact P.
 Qed.
+
+Lemma rawjson_progress : progress_ok recv (fun _ => True).
+Proof.
+  intros st s _. unfold recv. destruct st as [e|].
+  - split; auto. right. split; auto. exists (Some e). auto.
+  - pose proof (skip_ws_len s) as Hw. destruct (skip_ws s) as [|c v] eqn:E.
+    + split; auto. right. split; auto. exists (Some EEOF). auto.
+    + pose proof (scan_fuel_ok (c :: v)) as P. destruct (scan (c :: v)) as [rest| | |]; cbn in P.
+      * split; auto. rewrite ?E in Hw. cbn [length] in *. lia.
+      * split; auto. right. split; auto. exists (Some EJSONSyntax). auto.
+      * split; auto. right. split; auto. exists (Some EUnexpectedEOF). auto.
+      * contradiction.
+Qed.
+
+(* the whole sequence of Recv calls on any stream: no panic, no fuel exhaustion *)
+Theorem rawjson_recv_all_clean : forall s, clean (recv_all s).
+Proof.
+  intros s. unfold recv_all. apply (recv_all_clean _ (fun _ => True)); auto. apply rawjson_progress.
+Qed.
+
+(* an error is sticky: once Recv has failed it keeps returning the same error *)
+Theorem rawjson_sticky : forall e s, recv (Some e) s = Err e (Some e) s.
+Proof. reflexivity. Qed.
 
 Theorem rawjson_exhausted : forall j, all_ws j ->
   recv_all j = [IErr EEOF].
@@ -115,3 +146,101 @@ Proof.
   destruct (recv_end j Hj) as [E1 E2]. rewrite E1. cbn [same_as_prev]. rewrite E2.
   cbn. reflexivity.
 Qed.
+
+(* ---- C12 soundness of the framing layer ------------------------------------------------------ *)
+
+Lemma skip_ws_split s : exists j, s = j ++ skip_ws s /\ all_ws j.
+Proof.
+  induction s as [|c s [j [E Hj]]]; cbn.
+  - exists []. split; [reflexivity|constructor].
+  - destruct (is_ws c) eqn:Ec.
+    + exists (c :: j). split; [cbn; now f_equal | now constructor].
+    + exists []. split; [reflexivity|constructor].
+Qed.
+
+(* a record returned by Recv is a contiguous span of the stream: white space, then the bytes of
+   exactly one JSON value as Go's scanner delimits it (the record; a null value is returned as the
+   empty record), and [rest] is everything after it.  Nothing fabricated, reordered or shortened.
+   (The JSON grammar itself is the scanner model of JsonScan.v; it is not restated independently.) *)
+Theorem rawjson_sound : forall st s r st' rest,
+  recv st s = Ok r st' rest ->
+  st = None /\ st' = None /\
+  exists j raw, s = j ++ raw ++ rest /\ all_ws j /\
+                (exists c t, raw = c :: t /\ is_ws c = false) /\
+                scan (raw ++ rest) = Done rest /\
+                r = (if is_null raw then [] else raw).
+Proof.
+  intros st s r st' rest H. unfold recv in H. destruct st as [e|]; [discriminate|].
+  destruct (skip_ws_split s) as [j [Es Hj]].
+  destruct (skip_ws s) as [|c v] eqn:Ev; [discriminate|].
+  destruct (scan (c :: v)) as [rest0| | |] eqn:Esc; try discriminate.
+  inversion H; subst r st' rest0. split; auto. split; auto.
+  destruct (scan_suffix _ _ Esc) as [raw Eraw].
+  assert (Hlen : (length rest + 1 <= length (c :: v))%nat).
+  { pose proof (scan_fuel_ok (c :: v)) as P. rewrite Esc in P. exact P. }
+  destruct raw as [|c' t].
+  { cbn in Eraw. rewrite <- Eraw in Hlen. cbn [length] in Hlen. lia. }
+  cbn [app] in Eraw. injection Eraw as Hc Hv. subst c' v.
+  exists j, (c :: t). split; [rewrite Es; reflexivity|]. split; [exact Hj|].
+  split; [exists c, t; split; [reflexivity | eapply skip_ws_head; exact Ev]|].
+  split; [exact Esc|].
+  change (c :: t ++ rest) with ((c :: t) ++ rest). rewrite span_before_app. reflexivity.
+Qed.
+
+Example rawjson_sound_nonvacuous :
+  (* space {} [1] : the first record is the object, the rest starts at the bracket *)
+  recv None [32; 123; 125; 91; 49; 93] = Ok [123; 125] None [91; 49; 93].
+Proof. reflexivity. Qed.
+
+(* ---- C12 truncation --------------------------------------------------------------------------- *)
+
+(* a proper prefix of a JSON object, array or string is never a complete value: Recv reports an
+   error and returns no (shortened) record *)
+Lemma recv_cut j r pre suf :
+  all_ws j -> json_record r = true -> r = pre ++ suf -> pre <> [] -> suf <> [] ->
+  exists e, recv None (j ++ pre) = Err e (Some e) (j ++ pre).
+Proof.
+  intros Hj Hr E Hp Hs.
+  destruct (json_record_head r Hr) as [c [t [Er [Hc Hk]]]].
+  destruct pre as [|p0 pre']; [congruence|]. assert (p0 = c) by (rewrite Er in E; now inversion E). subst p0.
+  unfold recv. rewrite skip_ws_app by assumption. cbn [skip_ws]. rewrite Hc.
+  pose proof (scan_fuel_ok (c :: pre')) as P.
+  destruct (scan (c :: pre')) as [rest'| | |] eqn:Esc; [|eauto|eauto|contradiction].
+  exfalso.
+  assert (Hnn : nonnum (c :: pre')).
+  { unfold nonnum. cbn [skip_ws]. rewrite Hc. unfold num_start, is_digit19.
+    destruct Hk as [->|[->| ->]]; reflexivity. }
+  assert (Hext : scan ((c :: pre') ++ suf) = Done (rest' ++ suf)).
+  { unfold scan in *. apply (proj1 (ext_all _) 0 (c :: pre') rest' Esc (or_intror Hnn) suf).
+    unfold scan_fuel. rewrite app_length. lia. }
+  rewrite <- E in Hext. unfold json_record in Hr. rewrite Er in Hr. rewrite Er in Hext.
+  apply andb_true_iff in Hr. destruct Hr as [_ Hr]. rewrite Hext in Hr.
+  destruct rest'; [destruct suf; [congruence|discriminate]|discriminate].
+Qed.
+
+Theorem rawjson_truncation : forall rs r pre suf,
+  Forall legal rs -> json_record r = true -> r = pre ++ suf -> pre <> [] -> suf <> [] ->
+  exists e, recv_all (concat (map enc rs) ++ pre) = map IRec rs ++ [IErr e].
+Proof.
+  intros rs r pre suf Hrs Hr E Hp Hs. unfold recv_all, recv_all_from.
+  assert (Hfuel : exists k, S (S (length (concat (map enc rs) ++ pre))) = (length rs + S (S k))%nat).
+  { assert (length rs <= length (concat (map enc rs)))%nat.
+    { clear - Hrs. induction Hrs as [|x rs Hx _ IH]; cbn; auto. rewrite app_length.
+      rewrite (enc_legal x Hx). destruct Hx as [->|Hx]; [cbn; lia|].
+      destruct (json_record_head x Hx) as [c [t [-> _]]]. cbn. lia. }
+    exists (length (concat (map enc rs)) - length rs + length pre)%nat. rewrite app_length. lia. }
+  destruct Hfuel as [k ->].
+  destruct (records_then_tail recv enc (fun st => st = None) legal all_ws) with
+    (rs := rs) (st := @None errkind) (j := @nil N) (fuel := S (S k)) (prev := @None item) (tail := pre)
+    as [st' [j' [prev' [-> [Hj' [Hp' Eq]]]]]]; auto; try congruence; try constructor.
+  { intros st j r0 rest -> Hj Hl. destruct (recv_enc j r0 rest Hj Hl) as [j1 [E1 Hj1]]. exists None, j1. auto. }
+  cbn [app] in Eq. rewrite Eq.
+  destruct (recv_cut j' r pre suf Hj' Hr E Hp Hs) as [e He]. exists e. f_equal.
+  cbn [recv_all_loop]. rewrite He. rewrite same_as_prev_noerr by assumption.
+  cbn [recv]. cbn [same_as_prev item_eqb]. rewrite errkind_eqb_refl. reflexivity.
+Qed.
+
+Example rawjson_truncation_nonvacuous :
+  (* {} then the first four bytes of the array of a string and a number *)
+  recv_all ([123; 125] ++ [91; 34; 97; 34]) = [IRec [123; 125]; IErr EUnexpectedEOF].
+Proof. reflexivity. Qed.
